@@ -1625,10 +1625,18 @@ class ThroughputCalculator:
             self.has_samples_in_sample_type = False
             # start relative to the beginning of our (calculation) time slice.
             self.start_time = start_time
+            # the unit in which the operations of this task are counted
+            self.ops_unit = None
 
         @property
         def throughput(self):
             return self.total_count / self.interval
+
+        def maybe_update_ops_unit(self, sample):
+            # A request that has not done any work does not tell in which unit this task counts: a failed request is recorded
+            # with zero "ops" regardless of the unit of the task (e.g. "docs" for bulk-indexing).
+            if self.ops_unit is None or sample.total_ops > 0:
+                self.ops_unit = sample.total_ops_unit
 
         def maybe_update_sample_type(self, current_sample_type):
             if self.sample_type < current_sample_type:
@@ -1723,6 +1731,7 @@ class ThroughputCalculator:
             # because we would count all raw samples in `unprocessed` twice. Hence, we'll only update
             # `current.total_count` when we have calculated a new throughput sample.
             count += sample.total_ops
+            current.maybe_update_ops_unit(sample)
             current.update_interval(sample.absolute_time)
 
             if current.can_calculate_throughput():
@@ -1734,7 +1743,7 @@ class ThroughputCalculator:
                         current.sample_type,
                         current.throughput,
                         # we calculate throughput per second
-                        f"{sample.total_ops_unit}/s",
+                        f"{current.ops_unit}/s",
                     )
                 )
             else:
@@ -1750,7 +1759,7 @@ class ThroughputCalculator:
                     last_sample.relative_time,
                     current.sample_type,
                     current.throughput,
-                    f"{last_sample.total_ops_unit}/s",
+                    f"{current.ops_unit}/s",
                 )
             )
 
